@@ -314,7 +314,8 @@ func VerifC10Append() {
 	p.astring(mbox, 0)
 	p.raw(" ")
 	var flags [][]byte
-	hasFlags := vsymChoice("hasFlags", 2) == 1
+	fam := vsymParam("fam") // 0: flag list variants, 1: date-time variants, 2: both present
+	hasFlags := fam == 2 || fam == 0 && vsymChoice("hasFlags", 2) == 1
 	if hasFlags {
 		p.raw("(")
 		nf := vsymChoice("nflags", 3)
@@ -327,7 +328,7 @@ func VerifC10Append() {
 		p.raw(") ")
 	}
 	var when time.Time
-	if vsymChoice("hasDate", 2) == 1 {
+	if fam == 2 || fam == 1 && vsymChoice("hasDate", 2) == 1 {
 		p.raw("\"")
 		var d int
 		if vsymChoice("dayFixed", 2) == 1 {
